@@ -16,13 +16,16 @@ REPO = os.environ.get("VERIF_REPO", "/repo")
 _lock = threading.Lock()
 
 
-def build(tree, variant=""):
+def build(tree, variant="", defs=()):
     out = os.path.join(tree, "replay_build" + variant)
     exe = os.path.join(out, "replay_api")
     with _lock:
         if not os.path.exists(exe):
             os.makedirs(out, exist_ok=True)
             env = dict(os.environ)
+            if defs:
+                # same compile-time path as the failed job (guarded hook H1)
+                env["REPLAY_DEFS"] = " ".join("-D" + d for d in defs)
             p = subprocess.run([os.path.join(HERE, "replay", "build.sh"), REPO, out],
                                stdout=subprocess.PIPE, stderr=subprocess.STDOUT, env=env)
             if p.returncode != 0:
@@ -30,8 +33,9 @@ def build(tree, variant=""):
     return exe, ""
 
 
-def run_family(tree, family, seed, extra=(), timeout=600):
-    exe, err = build(tree)
+def run_family(tree, family, seed, extra=(), timeout=600, defs=()):
+    variant = ("_" + "_".join(d.replace("SKINNY_VERIF_", "").replace("=", "") for d in defs)) if defs else ""
+    exe, err = build(tree, variant, defs)
     if not exe:
         return False, "replayer build failed:\n" + err
     texts = []
@@ -52,4 +56,5 @@ def run_family(tree, family, seed, extra=(), timeout=600):
 
 
 def replay(job, out, tree, seed):
-    return run_family(tree, job.replay, seed)
+    defs = [d for d in job.defs if d.startswith("SKINNY_VERIF_")]
+    return run_family(tree, job.replay, seed, defs=defs)
